@@ -39,6 +39,12 @@ def run(tier, rep):
     nchain = 0
     for k, lst in chains.items():
         lst.sort(reverse=True)
+        # (only windows nested in the previous one belong to the chain: the narrow window [0.45,0.49]e0 does not)
+        nested = []
+        for w in lst:
+            if not nested or (w[1] >= nested[-1][1] and w[2] <= nested[-1][2]):
+                nested.append(w)
+        lst = nested
         nchain += 1
         for a, b in zip(lst, lst[1:]):
             if not (b[3] >= a[3] * (1 - 1e-9)):
